@@ -11,7 +11,7 @@ from .common.httpgen import generate as _gen
 from .common.codec import hx, unhx
 
 PROPERTY = "C01"
-LEAN_MODULES = ["AioProps.C01"]
+LEAN_MODULES = ["AioProps.C01", "AioProps.C01Run"]
 THEOREMS = [
     "Aio.Http.accepted_request_is_strict",
     "Aio.Http.cl_with_te_rejected",
@@ -21,6 +21,9 @@ THEOREMS = [
     "Aio.Http.field_bytes_clean",
     "Aio.Http.bare_lf_request_line_rejected",
     "Aio.Http.host_required_http11",
+    "Aio.Http.stream_messages_strict",
+    "Aio.Http.feedEof_messages_strict",
+    "Aio.Http.run_messages_strict",
 ]
 RULE = ("request streams from the grammar (1-3 pipelined requests: origin/absolute/asterisk/authority targets, CL and "
         f"chunked bodies with extensions and trailers) and each of the {len(H.MUTATIONS)} mutation classes (duplicate/sign/"
